@@ -161,7 +161,7 @@ def run(tier, replay=None):
         meta = {lines2[0].split(" ", 1)[0]: {"fields": replay.get("fields", {}), "lay": replay["layout"], "len": replay["image_len"], "rules": replay.get("rules")}}
     else:
         lines = [ac.case_line("f%d" % i, c, hex=1) for i, c in enumerate(cases)]
-        out, rc, err = core.run_parallel([b["h_grow"]], lines, env=ac.scratch_env(PID))
+        out, rc, err = core.run_parallel(ac.capped(b["h_grow"]), lines, env=ac.scratch_env(PID))
         lines2, meta = [], {}
         for l in out:
             l1, u = ac.split_ub(l)
@@ -203,7 +203,7 @@ def run(tier, replay=None):
                 meta[cid] = {"fields": fields, "lay": lay, "len": len(img), "exhaustive": exhaustive and gi == 0, "rules": [s for _, s in cases[i]["nss"]]}
     import time
     t0 = time.time()
-    impl, rc, err = core.run_parallel([b["h_load"]], lines2, env=env, timeout=3000)
+    impl, rc, err = core.run_parallel(ac.capped(b["h_load"]), lines2, env=env, timeout=3000)
     t_impl = time.time() - t0
     if rc != 0:
         chk.violation("harness_crash.json", {"kind": "harness-failed", "rc": rc, "stderr": err, "harness": "h_load"})
